@@ -19,6 +19,7 @@ import os
 import re
 import shutil
 import threading
+import time
 
 from .. import core
 
@@ -477,9 +478,46 @@ class C13(core.Check):
             t.start()
             t.join(5)
             return res.get('bad', ['free-check did not finish'])
-        r0, ck0 = request('ok', [0, 0, 0])
-        prime_ok = r0['status'] == 200 and ck0 is not None and not free_for_others()
-        r1, ck1 = request(oc, c['faults'], ck0, abandon=1 if oc == 'stream_abandoned' else None)
+        # every request runs on its own worker thread that stays alive until the case is over (as the threads of
+        # a server's pool do: a re-used thread ident would re-enter a leaked RLock and hide the leak), and is
+        # given up after a time limit (a request blocked on a leaked lock must not hang the check)
+        done = threading.Event()
+
+        def on_worker(fn, limit=20):
+            box = {}
+
+            def body():
+                try:
+                    box['r'] = fn()
+                except BaseException as e:      # noqa
+                    box['exc'] = e
+                done.wait(120)
+            t = threading.Thread(target=body, name='c13-worker', daemon=True)
+            t.start()
+            t0 = time.time()
+            while 'r' not in box and 'exc' not in box and time.time() - t0 < limit:
+                time.sleep(0.002)
+            if 'exc' in box:
+                raise box['exc']
+            return box.get('r')
+        HUNG = {'sys': 'seq', 'hung': True, 'prime_ok': True, 'status': None, 'escaped': None, 'obs': [], 'locked': 0,
+                'count': 0, 'leak': 0, 'notfree': [], 'follow': {'ran': False}, 'cookie_changed': False}
+        if getattr(self, '_hung', 0) >= 3:
+            return dict(HUNG, hung='skipped after 3 blocked requests')
+        try:
+            res0 = on_worker(lambda: request('ok', [0, 0, 0]))
+            if res0 is None:
+                self._hung = getattr(self, '_hung', 0) + 1
+                return dict(HUNG, hung='the priming request blocked')
+            r0, ck0 = res0
+            prime_ok = r0['status'] == 200 and ck0 is not None and not free_for_others()
+            res1 = on_worker(lambda: request(oc, c['faults'], ck0, abandon=1 if oc == 'stream_abandoned' else None))
+            if res1 is None:
+                self._hung = getattr(self, '_hung', 0) + 1
+                return dict(HUNG, hung='the request under test blocked on the session lock its predecessor left')
+            r1, ck1 = res1
+        finally:
+            done_later = done
         obs = list(cur['obs'])
         sess = cur['sess']
         mine, others = held_locks()
@@ -498,6 +536,7 @@ class C13(core.Check):
             t.join(10)
             follow = {'ran': True, 'completed': 'status' in res, 'status': res.get('status'),
                       'free_after': not free_for_others()}
+        done.set()
         return {'sys': 'seq', 'prime_ok': prime_ok, 'status': r1['status'], 'escaped': r1['escaped'],
                 'obs': obs, 'locked': locked, 'count': mine, 'leak': others, 'notfree': notfree, 'follow': follow,
                 'cookie_changed': bool(ck1 and ck1 != ck0)}
@@ -513,6 +552,8 @@ class C13(core.Check):
         if isinstance(mo, str):
             return 'model: ' + mo
         if c['sys'] == 'seq':
+            if obs.get('hung'):
+                return None if obs['hung'].startswith('skipped') else 'implementation blocked: ' + obs['hung']
             m_obs, m_locked, m_count, m_leak = mo
             if m_obs != obs['obs']:
                 return 'lock bookkeeping at the probe points differs: model %s impl %s' % (m_obs, obs['obs'])
@@ -545,6 +586,12 @@ class C13(core.Check):
         if c['sys'] == 'seq':
             what = '%s backend, locking=%s, outcome=%s, faults(end,save,fin)=%s' % (
                 c['backend'], c['mode'], c['outcome'], c['faults'])
+            if obs.get('hung'):
+                if obs['hung'].startswith('skipped'):
+                    return fails
+                fails.append(('next-request-blocked:%s' % c['backend'],
+                              'a request on the session never got the lock (%s): %s' % (obs['hung'], what)))
+                return fails
             if not obs['prime_ok']:
                 fails.append(('seq-prime-failed', 'the priming request did not create a session / left a lock: ' + what))
             if obs['notfree'] or obs['locked'] or obs['count'] or obs['leak']:
